@@ -13,8 +13,9 @@ Definition expected_ring_push : list N := [1; 65; 12; 2; 15; 14; 64; 67; 2; 4; 1
    cond.Wait (register+unlock atomically, re-lock on wake); Unlock }
    = CIdle -lock-> CHold -cs-> CTook/CSawClosed/CParked ; CParked -broadcast-> CWoken -relock-> CRelocked -unlock-> CIdle *)
 Definition expected_ring_pull : list N := [10; 1; 65; 12; 64; 66; 2; 15; 14; 63; 12; 2; 15; 14; 3; 2; 11].
-(* Close: Lock; closed = true; clear every slot; Unlock; Broadcast  = KIdle -> KHold -> KDid -> KBc -> KWait *)
-Definition expected_ring_close : list N := [1; 60; 10; 64; 11; 2; 4].
+(* Close: Lock; closed = true; clear every slot; writeIndex = readIndex; Unlock; Broadcast
+   = KIdle -> KHold -> KDid -> KBc -> KWait *)
+Definition expected_ring_close : list N := [1; 60; 10; 64; 11; 67; 2; 4].
 (* Processor.Close: cancel; buffer.Close(); if running { <-done }   = closer's KWait -> KDone guard *)
 Definition expected_ap_close : list N := [50; 40; 62; 12; 21; 14].
 (* Processor.Start (+ run, runInner inlined): running = true; go { defer close(done);
